@@ -348,6 +348,9 @@ def run(args) -> int:
                     enum_out[int(rn["acls"][5:])] = ev["out_sha"]
                 if not trivial(rn) and progs[rn["program"]].strip():
                     distinct.add(json.dumps([rn["program"], rn["argv"], rn["scls"], rn.get("fault"), rn["chunks"][:8]]))
+                if v == "violation:does-not-terminate":
+                    bad.append((job, rn, ev))
+                    continue
                 if v.startswith("harness"):
                     raise HarnessError(f"C19 child: {v} argv={rn['argv']} program={rn['program']} detail={ev.get('detail')} stderr={ev.get('stderr_tail')}")
                 if v.startswith("violation"):
